@@ -31,7 +31,7 @@ theorem reachB_all (numnodes maxfail : Nat) (msc maxRestart : Option Int) (idsOf
     obtain ⟨i1, i6, i7, i8, ih2, i9⟩ := ih
     exact ⟨step_inv idsOf a i1 hs, step_inv6 idsOf a i1 i6 hs, step_inv7 idsOf a i1 i6 i7 hs,
       step_inv8w idsOf a i1 i6 i7 i8 hs, other_h2 idsOf a hn i6 i7 i8 ih2 hs, step_inv9 idsOf a i9 hs⟩
-  | ctl k rq _ hs hw hp hsh hg ih =>
+  | ctl k rq _ hs hw hp hsh hg _ ih =>
     obtain ⟨i1, i6, i7, i8, ih2, i9⟩ := ih
     exact ⟨step_inv idsOf _ i1 hs, step_inv6 idsOf _ i1 i6 hs, step_inv7 idsOf _ i1 i6 i7 hs,
       step_inv8w idsOf _ i1 i6 i7 i8 hs, ctl_h2 idsOf i8 ih2 hs hw hp hsh hg, step_inv9 idsOf _ i9 hs⟩
@@ -104,5 +104,46 @@ theorem C03_sys_load_accounting_at_end (numnodes maxfail : Nat) (msc maxRestart 
   rw [hpool, hbooks, hhand] at hled
   simp only [AList.values, List.map_nil, List.flatten_nil, List.nil_append] at hled
   exact ⟨hled, hpool, hbooks⟩
+
+theorem range_filterMap_get (l : List τ) : (List.range l.length).filterMap (fun i => l[i]?) = l := by
+  induction l with
+  | nil => rfl
+  | cons a t ih =>
+    rw [List.length_cons, List.range_succ_eq_map, List.filterMap_cons]
+    simp only [List.getElem?_cons_zero, List.filterMap_map]
+    congr 1
+
+/-- **The same in terms of what is published** (test ids): at the end of such a session the tests completed by the workers
+    together with the tests *reported as crashed* are, as a multiset, the collection plus the tests the crash hook re-queued:
+    every test has a completion or a crash report, exactly one of them (one more per re-queue) — nothing is lost, nothing
+    runs to completion twice, nothing is reported as crashed that was not charged. -/
+theorem C03_sys_load_reports_at_end (numnodes maxfail : Nat) (msc maxRestart : Option Int) (idsOf : Nat → List τ)
+    {st : LState τ} {g : Ghost} {col : List τ}
+    (h : ReachB idsOf (init loadI (Load.init numnodes msc) numnodes maxfail maxRestart idsOf) st [] g)
+    (hcol : st.ctl.sched.collection = some col) (hfin : Ctl.sessionFinished st.ctl = true)
+    (hstop : st.ctl.shouldstop = none) (hsum : st.ctl.summary = none) :
+    ((st.wk.flatMap doneIdx).filterMap (fun i => col[i]?) ++ crashIds st.ctl.pubs).Perm (col ++ rqIds st.ctl.pubs) := by
+  obtain ⟨hperm, _, _⟩ := C03_sys_load_accounting_at_end numnodes maxfail msc maxRestart idsOf h hcol hfin hstop hsum
+  obtain ⟨hc1, hc2⟩ := (reachB_gc numnodes maxfail msc maxRestart idsOf h).late col hcol
+  have hp := hperm.filterMap (fun i => col[i]?)
+  rw [List.filterMap_append, List.filterMap_append, range_filterMap_get] at hp
+  rw [hc1, hc2]
+  unfold idsOfIdx
+  refine List.Perm.trans (List.Perm.append_left _ ((List.reverse_perm _).filterMap _)) (hp.trans ?_)
+  exact List.Perm.append_left _ ((List.reverse_perm _).filterMap _).symm
+
+/-- **Ghost-free form.**  For every execution of the system (`ReachG`) in which no undecodable message was received (`W = []`):
+    when the session is finished without stop reason and within the restart budget, the tests completed by the workers together
+    with the tests reported as crashed are the collection plus the re-queued tests, as multisets of test ids. -/
+theorem C03_sys_load_every_test_completed_or_reported (numnodes maxfail : Nat) (msc maxRestart : Option Int) (idsOf : Nat → List τ)
+    {st : LState τ} {col : List τ}
+    (h : ReachG idsOf (init loadI (Load.init numnodes msc) numnodes maxfail maxRestart idsOf) st [])
+    (hcol : st.ctl.sched.collection = some col) (hfin : Ctl.sessionFinished st.ctl = true)
+    (hstop : st.ctl.shouldstop = none) (hsum : st.ctl.summary = none) :
+    ((st.wk.flatMap doneIdx).filterMap (fun i => col[i]?) ++ crashIds st.ctl.pubs).Perm (col ++ rqIds st.ctl.pubs) ∧
+      st.ctl.sched.pending = [] ∧ st.ctl.sched.node2pending = [] := by
+  obtain ⟨g, hg⟩ := reachG_reachB numnodes maxfail msc maxRestart idsOf h
+  exact ⟨C03_sys_load_reports_at_end numnodes maxfail msc maxRestart idsOf hg hcol hfin hstop hsum,
+    (C03_sys_load_accounting_at_end numnodes maxfail msc maxRestart idsOf hg hcol hfin hstop hsum).2⟩
 
 end Xdist.Sys
